@@ -34,7 +34,7 @@ type c01Case struct {
 var c01AltKinds = []string{
 	"none", "neutral",
 	"content", "content", "content", "content", "payload-bytes", "inmemory",
-	"sig-drop", "sig-flip", "sig-swap", "sig-retarget", "sig-empty", "sig-junk-first", "sig-dup-for-missing", "inmemory",
+	"sig-drop", "sig-flip", "sig-swap", "sig-retarget", "sig-empty", "sig-junk-first", "sig-dup-for-missing", "inmemory", "stranger-relabelled-sig", "sig-undecodable", "sig-undecodable",
 	"keys-empty", "keys-add-nonsigner", "keys-stranger", "keys-pubswap", "keys-subset", "keys-unknown-type", "keys-unknown-type",
 }
 
@@ -52,6 +52,14 @@ func c01Gen(t *rapid.T) c01Case {
 	c.Alt.B = rapid.IntRange(0, 1<<16).Draw(t, "b")
 	c.Alt.Other = rapid.SampledFrom(hx.CheapPoolNames()).Draw(t, "other")
 	c.Alt.Style = hx.JSONStyle{KeyOrder: rapid.IntRange(0, 3).Draw(t, "ko"), Indent: rapid.IntRange(0, 2).Draw(t, "ind"), EscapeAll: rapid.Bool().Draw(t, "esc")}
+	if c.Alt.Kind == "stranger-relabelled-sig" && rapid.Bool().Draw(t, "rawsizedsig") {
+		// a signature whose length is what the stranger's key type would produce in a fixed-size encoding:
+		// an Ed25519 signature (64 bytes) listed under the id of a P-256 key
+		signer := rapid.SampledFrom([]string{"ed25519-0", "ed25519-1", "ed25519-2"}).Draw(t, "edsigner")
+		c.World.Layout.Sigs = []hx.WSig{{Key: signer}}
+		c.World.VerifierKeys = []hx.WKey{{Key: signer}}
+		c.Alt.Other = rapid.SampledFrom([]string{"ecdsa-p256-0", "ecdsa-p256-1"}).Draw(t, "p256stranger")
+	}
 	if c.Alt.Kind == "content" {
 		_, muts := c01ContentMutations(w)
 		if len(muts) > 0 {
@@ -120,7 +128,7 @@ func c01Eval(c c01Case, r *hx.Rec, enum *hx.TreeMutation) error {
 		} else {
 			w.VerifierKeys = append(append([]hx.WKey{}, w.VerifierKeys...), hx.WKey{Key: alt.Other})
 		}
-	case "keys-stranger":
+	case "keys-stranger", "stranger-relabelled-sig":
 		if signerSet[alt.Other] {
 			applied = false
 		} else {
@@ -272,6 +280,55 @@ func c01Eval(c c01Case, r *hx.Rec, enum *hx.TreeMutation) error {
 				out = append(out, dup)
 			}
 			top["signatures"] = out
+			return true
+		})
+	case "stranger-relabelled-sig":
+		// the only supplied key never signed; a signature made by somebody else (other key type, other
+		// signature length) is listed under its key id
+		if !applied {
+			break
+		}
+		applied, err = editFile(b.LayoutPath, hx.JSONStyle{Indent: 1}, func(top map[string]any) bool {
+			s := sigField(top)
+			if len(s) == 0 {
+				return false
+			}
+			for _, e := range s {
+				e.(map[string]any)["keyid"] = hx.PoolKey(alt.Other).KeyID
+			}
+			return true
+		})
+	case "sig-undecodable":
+		// the signed content is altered and the list additionally holds an entry whose value cannot be
+		// decoded at all (not hex / not base64, or a signature that lost its last character)
+		applied, err = editFile(b.LayoutPath, hx.JSONStyle{Indent: 1}, func(top map[string]any) bool {
+			s := sigField(top)
+			bad := map[string]any{"keyid": "00", "sig": "?"}
+			if len(s) > 0 && alt.A%2 == 0 {
+				first := s[alt.A/2%len(s)].(map[string]any)
+				v, _ := first["sig"].(string)
+				if len(v) > 1 {
+					bad = map[string]any{"keyid": first["keyid"], "sig": v[:len(v)-1]}
+				}
+			}
+			switch alt.B % 3 {
+			case 0:
+				top["signatures"] = append([]any{bad}, s...)
+			case 1:
+				top["signatures"] = append(append([]any{}, s...), bad)
+			default:
+				top["signatures"] = []any{bad}
+			}
+			// ... and the content no longer is what was signed
+			if p, ok := top["payload"].(string); ok {
+				raw, e := hx.B64Flexible(p)
+				if e != nil {
+					return false
+				}
+				top["payload"] = base64Std(append(raw[:len(raw)-1:len(raw)-1], []byte(` }`)...))
+			} else if sg, ok := top["signed"].(map[string]any); ok {
+				sg["readme"] = "altered after signing"
+			}
 			return true
 		})
 	case "sig-junk-first":
